@@ -303,4 +303,21 @@ theorem sreach_self {script s} (h : SReach script s) : ∀ e ∈ s.effLog, e.2.1
     | spawnSetParent c => simp only [sysStep] at hs; (repeat' split at hs) <;> cases hs <;> exact ih
     | spawnSetChild c => simp only [sysStep] at hs; (repeat' split at hs) <;> cases hs <;> exact ih
 
+def runSActs : Sys → List SAct → Option Sys
+  | s, [] => some s
+  | s, a :: as => match sysStep s a with
+    | some t => runSActs t as
+    | none => none
+
+theorem sreach_run {script} : ∀ (acts : List SAct) {s t}, SReach script s → runSActs s acts = some t → SReach script t
+  | [], s, t, hr, h => by simp only [runSActs] at h; cases h; exact hr
+  | a :: as, s, t, hr, h => by
+    simp only [runSActs] at h
+    split at h
+    · next u hu => exact sreach_run as (SReach.step a hr hu) h
+    · cases h
+
+theorem sreach_of_run {script} (acts : List SAct) {t} (h : runSActs (Sys.init script) acts = some t) :
+    SReach script t := sreach_run acts SReach.init h
+
 end FpgoVerif.C12
